@@ -679,6 +679,7 @@ def run_job(job):
             bump("scenarios-with-invalid-model")
         st["evals"] += res.get("evals_total", 0)
         st["events"] += res.get("n_events", 0)
+        st.setdefault("evdigs", []).append(res.get("events_digest", "")[:16] + short([res.get("tasks"), refs], 8))
         st["extra"]["simulated_clock_seconds"] = st["extra"].get("simulated_clock_seconds", 0) + res.get("clock_advance", 0)
         st["extra"]["yield_points"] = st["extra"].get("yield_points", 0) + res.get("yields", 0)
         st["extra"]["task_switches"] = st["extra"].get("task_switches", 0) + res.get("switches", 0)
